@@ -67,7 +67,8 @@ def cases(seed, tier):
             # the same server audited as the second target of one invocation, after a server of the same product at another version:
             # what counts as available is a matter of this server's version only
             v2 = rand_version(r2, product)
-            c['after'] = banner.replace(version, v2, 1) if v2 != version else None
+            # (the version is the part after the product name: replace its last occurrence, not a "2.0" inside "SSH-2.0-")
+            c['after'] = (banner[::-1].replace(version[::-1], v2[::-1], 1)[::-1]) if v2 != version else None
         yield c
 
 
